@@ -106,7 +106,7 @@ class _Pass(ast.NodeTransformer):
         return node
 
 
-_CM_NAMES = ('index', 'find', 'rfind', 'join', 'startswith', 'endswith', 'count')
+_CM_NAMES = ('index', 'find', 'rfind', 'join', 'startswith', 'endswith', 'count', 'get')
 
 
 def _is_simple(n):
@@ -415,6 +415,12 @@ def v_cm(recv, name, *args, **kw):
     elif _real_isinstance(recv, (bytes, bytearray)):
         if any(_real_isinstance(a, (VBytes, VByteArray, SymInt)) for a in args) or name == 'join':
             return getattr(VBytes(recv), name)(*args, **kw)
+    elif name == 'get' and _real_isinstance(recv, dict) and args and _real_isinstance(args[0], (SymInt, SymBool, VBytes, VStr)):
+        # dict.get with a symbolic key: fork over the keys
+        try:
+            return v_getitem(recv, args[0])
+        except KeyError:
+            return args[1] if len(args) > 1 else None
     return getattr(recv, name)(*args, **kw)
 
 
@@ -466,7 +472,7 @@ class Lib(object):
         self.stubmods = {
             'struct': stubs.make_struct(), 'io': stubs.make_io(), 'hashlib': stubs.make_hashlib(),
             'binascii': stubs.make_binascii(), 'base64': stubs.make_base64(), 'socket': stubs.make_socket(),
-            'time': stubs.make_time(), 'random': stubs.make_random(), 'math': stubs.make_math(),
+            'time': stubs.make_time(), 'random': stubs.make_random(), 'math': stubs.make_math(), 'json': stubs.make_json(), 'decimal': stubs.make_decimal(),
         }
         self.sources = {}
         self.key_stub = key_stub
@@ -474,7 +480,7 @@ class Lib(object):
         for name in ('bitcoin.core', 'bitcoin.core.serialize', 'bitcoin.core.script', 'bitcoin.core.scripteval',
                      'bitcoin.core.key', 'bitcoin.base58', 'bitcoin.bech32', 'bitcoin.segwit_addr',
                      'bitcoin.wallet', 'bitcoin.bloom', 'bitcoin.net', 'bitcoin.messages',
-                     'bitcoin.signmessage', 'bitcoin.signature', 'bitcoin.core._bignum',
+                     'bitcoin.signmessage', 'bitcoin.signature', 'bitcoin.core._bignum', 'bitcoin.rpc',
                      'bitcoin.core.contrib.ripemd160'):
             self.load(name)
 
